@@ -96,6 +96,23 @@ where
     windows.push(e.to_be_bytes().to_vec());
     windows.push(sb[..48].to_vec());
 
+    // degenerate draws fail closed: with r1 = 0, r2 = 0 or both injected, proof generation either refuses or returns
+    // a proof that no verifier accepts -- never a VERIFYING proof whose multiplicative blinding is gone (Abar = A,
+    // D = B) and whose octets contain the signature point
+    for zeros in [vec![0usize], vec![1], vec![0, 1]] {
+        let mut tape = rand_tape(h, 5 + 3);
+        for &z in &zeros { tape[z] = vec![0u8; 32]; }
+        let (p, _) = proofgen::<CS>(h, &pk, &sb, hdr.as_deref(), None, Some(&msgs), Some(&d), tape);
+        let gid = h.last();
+        h.stat("C07.degenerate_draw");
+        if let Some(p) = p.ok() {
+            let dm = vec![msgs[1].clone()];
+            let v = proofverify::<CS>(h, &pk, &p, hdr.as_deref(), None, Some(&dm), Some(&d));
+            h.expect(!v.is_ok(), "C07.degenerate_draw_verifies", &format!("proof generation with the multiplicative blinding draws {:?} forced to 0 returned a proof that verifies: the blinding was silently replaced", zeros), &[gid, h.last()]);
+            let enc = p.to_bytes();
+            h.expect(!enc.windows(48).any(|w| w == &sb[..48]), "C07.signature_point_in_proof", "the proof octets contain the signature point A", &[gid]);
+        }
+    }
     // (a) identical inputs, one thread, production RNG (record mode); every proof also goes to
     // the model with its recorded tape, which shows that ALL randomness reaching the output went
     // through the recorded draws
@@ -556,6 +573,20 @@ where
             // position one past the end, and the count one too small: refused
             let o = update::<CS>(h, &sig, &sk, if l > 0 { &msgs[l - 1] } else { b"" }, b"updated", l, l);
             h.expect(o.is_err(), "C10.update_past_end", "update_signature accepted the position one past the end", &[h.last()]);
+            // the identity as commitment point followed by scalars that prove nothing: refused by the signer and by
+            // the public validation helper (an identity commitment with a VALID proof is a different artefact)
+            {
+                let mut t = bls12_381_plus::G1Affine::identity().to_compressed().to_vec();
+                for _ in 0..3 {
+                    let mut a = h.rng.bytes(32);
+                    a[0] &= 0x3f;
+                    t.extend_from_slice(&a);
+                }
+                let o = blindsign::<CS>(h, &sk, &pk, Some(&t), hdr.as_deref(), Some(&msgs));
+                h.expect(!o.is_panic() && !o.is_ok(), "C10.identity_commitment_junk_proof", "blind_sign signed for an identity commitment whose proof is junk", &[h.last()]);
+                let o = devc::<CS>(h, Some(&t), 2);
+                h.expect(!o.is_panic() && !o.is_ok(), "C10.identity_commitment_junk_proof", "deserialize_and_validate_commit accepted an identity commitment whose proof is junk", &[h.last()]);
+            }
             // "no commitment" given as None and as the empty octet string: the same (deterministic) signature
             let b_none = blindsign::<CS>(h, &sk, &pk, None, hdr.as_deref(), Some(&msgs));
             let n_id = h.last();
@@ -713,6 +744,23 @@ where
             if m > 0 || r == 0 {
                 let s2 = blindsign::<CS::Other>(h, &sk, &pk, Some(&run.cwp), hdr.as_deref(), Some(&msgs));
                 h.expect(!s2.is_ok(), "C11.commit_cross_suite", "a commitment made under one ciphersuite is accepted by the other", &[h.last()]);
+                // the same with the degenerate commitment: blind factor 0 and no committed message give C = identity
+                // with a genuine proof bound to THIS suite's hash
+                let mut zero_tape = rand_tape(h, 2);
+                zero_tape[0] = vec![0u8; 32];
+                // (this block runs with h.suite naming the OTHER suite: switch back for the two own-suite operations)
+                let other_name = other_suite(h);
+                let (c0, _) = commit::<CS>(h, Some(&[]), zero_tape);
+                h.suite = other_name;
+                if let Some((c0, _)) = c0.ok() {
+                    let b0 = c0.to_bytes();
+                    let other_name = other_suite(h);
+                    let own = blindsign::<CS>(h, &sk, &pk, Some(&b0), hdr.as_deref(), Some(&msgs));
+                    h.suite = other_name;
+                    h.stat(if own.is_ok() { "C11.identity_commit.own_suite_accepts" } else { "C11.identity_commit.own_suite_refuses" });
+                    let s3 = blindsign::<CS::Other>(h, &sk, &pk, Some(&b0), hdr.as_deref(), Some(&msgs));
+                    h.expect(!s3.is_ok(), "C11.commit_cross_suite_identity", "an identity commitment with a proof made under one ciphersuite is accepted by the other", &[h.last()]);
+                }
             }
         }
         if let Some(bp) = &bp {
